@@ -182,6 +182,9 @@ def do_call(drv, c):
             tgt.policy = c["intent"]["policy"]
         if "identity" in c["intent"]:                # the device behind the address was exchanged / updated
             tgt.identity = dict(c["intent"]["identity"])
+        if "project" in c["intent"]:                 # a new program was downloaded to the controller
+            from .simtarget import Project
+            tgt.project = Project(c["intent"]["project"], c["intent"]["mem"])
         return None
     if api == "open":
         return drv.open()
